@@ -297,6 +297,9 @@ def mkphi(c, a, b):
         break
     if c[0] == "const":
         return a if c[1] else b
+    # on the arm where `x is not None` fails, x IS None
+    if c[0] == "cmp" and c[1] == "IsNot" and c[3] == ("const", None) and b == c[2]:
+        b = ("const", None)
     if a == b:
         return a
     # `x if x else y` is `x or y`; `y if x else x` is `x and y`
@@ -518,7 +521,59 @@ class _State(object):
             self.block(st.orelse)
         self.block(st.finalbody) if st.finalbody else None
 
+    def _accumulator_loop(self, st):
+        """acc = []; for T in IT: <assignments / ifs>; acc.append(E)   ==   acc = [E' for T in IT]
+        (and `if C: acc.append(E)` == a filtering comprehension).  Returns True when the loop was read so."""
+        if not isinstance(st, ast.For) or st.orelse:
+            return False
+        for x in ast.walk(st):
+            if isinstance(x, (ast.Return, ast.Yield, ast.YieldFrom, ast.Break, ast.Continue, ast.Try, ast.While, ast.With, ast.FunctionDef, ast.Lambda)) or (isinstance(x, ast.For) and x is not st):
+                return False
+        muts = [x for x in ast.walk(st) if isinstance(x, ast.Call) and isinstance(x.func, ast.Attribute) and isinstance(x.func.value, ast.Name)
+                and x.func.attr in ("append", "extend", "pop", "add", "update", "insert", "remove", "clear", "sort", "reverse", "setdefault") and x.func.value.id in self.env and self.env[x.func.value.id][0] in ("list", "mut", "loop", "comp")]
+        if len(muts) != 1 or muts[0].func.attr != "append" or len(muts[0].args) != 1 or muts[0].keywords:
+            return False
+        acc = muts[0].func.value.id
+        if self.env.get(acc) != ("list", ()):
+            return False
+        if any(isinstance(x, ast.Name) and x.id == acc and x is not muts[0].func.value for x in ast.walk(st)):
+            return False
+        last = st.body[-1]
+        cond_node = None
+        if isinstance(last, ast.Expr) and last.value is muts[0]:
+            pass
+        elif isinstance(last, ast.If) and not last.orelse and len(last.body) == 1 and isinstance(last.body[0], ast.Expr) and last.body[0].value is muts[0]:
+            cond_node = last.test
+        else:
+            return False
+        targets = [x.id for x in ast.walk(st.target) if isinstance(x, ast.Name)]
+        stored = set(x.id for b in st.body[:-1] for x in ast.walk(b) if isinstance(x, ast.Name) and isinstance(x.ctx, ast.Store))
+        if any(n in self.env and n not in targets for n in stored):
+            return False  # a name of the enclosing function is rebound in the loop: not a pure mapping
+        it = self.expr(st.iter)
+        sub = self.fork()
+        if isinstance(st.target, ast.Name):
+            sub.env[st.target.id] = ("var", st.target.id, it)
+        else:
+            for i, e in enumerate(getattr(st.target, "elts", [])):
+                if not isinstance(e, ast.Name):
+                    return False
+                sub.env[e.id] = ("item", ("var", "*".join(targets), it), i)
+        nrets = len(self.rets)
+        sub.block(st.body[:-1])
+        if not sub.live or len(self.rets) != nrets:
+            return False
+        ifs = (sub.expr(cond_node),) if cond_node is not None else ()
+        elt = sub.expr(muts[0].args[0])
+        self.env[acc] = ("comp", "ListComp", elt, ((tuple(targets), it, ifs),))
+        for n in stored | set(targets):
+            self.env[n] = ("loop", n, st.lineno, it)
+            self.locals.add(n)
+        return True
+
     def loop(self, st):
+        if self._accumulator_loop(st):
+            return
         # havoc every name assigned in the loop; keep a marker with the loop's line
         assigned = set()
         for n in ast.walk(st):
